@@ -156,6 +156,7 @@ type Executor struct {
 	topName    string
 	curFrame   *Frame
 	curTokPos  token.Pos // position of the instruction being executed (lexical lookup of locals in at-call clauses)
+	callResults map[string]Val // results of the calls made so far by the top-level function, by callee name
 }
 
 func (x *Executor) recordWrite(comp string) {
